@@ -61,6 +61,10 @@ def generate(rng, tier, idx):
     if sorted(set(labels)) != list(range(1, max(labels) + 1)):
         seq = False
     ids = [int(v) for v in rng.choice(2 ** 31 - 1, size=n, replace=False)] if rng.random() < 0.5 else list(range(n))
+    if rng.random() < 0.15:
+        ids = [int(v) for v in rng.choice(np.arange(-100000, 100000), size=n, replace=False)]       # the binary format stores SIGNED 32-bit identifiers
+        if rng.random() < 0.5:
+            ids[0] = -abs(ids[0]) - 1
     feats = rng.normal(size=(n, f)).astype(np.float32)
     special = np.array([0.0, -0.0, 1e-45, 3.4e38, -3.4e38, 1.17549435e-38, 16777217.0, 0.1], dtype=np.float32)
     mask = rng.random((n, f)) < 0.15
